@@ -140,7 +140,7 @@ impl FrequencyCounter {
     }
 
     fn matrix(total_counters: TotalCounters) -> [Row; ROWS] {
-        let total_counters = (total_counters / 2) as usize;
+        let total_counters = ((total_counters / 2) as usize).max(1);
         let rows =
             (0..ROWS)
                 .map(|_index| Row(vec![0; total_counters]))
